@@ -227,10 +227,9 @@ def load_known():
     return json.load(open(p)).get("findings", [])
 
 
-def main(hname, argv=None):
+def run_engine(hname, argv=None):
+    """Parse arguments, run all configurations.  Returns a dict for finish()."""
     argv = list(sys.argv[1:] if argv is None else argv)
-    if "--replay" in argv:
-        sys.exit(replay_main(hname, argv[argv.index("--replay") + 1]))
     tier = os.environ.get("VERIF_TIER", "quick")
     if "--tier" in argv:
         tier = argv[argv.index("--tier") + 1]
@@ -243,27 +242,95 @@ def main(hname, argv=None):
     home = install.fresh_home()
     H = load_harness(hname)
     configs = H.configs(tier)
-    only = None
     if "--only" in argv:
         only = argv[argv.index("--only") + 1]
         configs = [c for c in configs if only in json.dumps(c)]
     results = []
-    if jobs <= 1 or len(configs) <= 1:
+    # a configuration carrying "_split": k is explored by 2^k processes, each forced down one
+    # combination of the first k two-sided forks (symx.core.explore(forced=...))
+    tasks = []
+    for c in configs:
+        k = int(c.get("_split", 0))
+        if k <= 0:
+            tasks.append(c)
+        else:
+            for bits in range(2 ** k):
+                tasks.append(dict(c, _forced=[bool((bits >> i) & 1) for i in range(k)]))
+    tasks.sort(key=lambda c: -int(c.get("_split", 0)))
+    if jobs <= 1 or len(tasks) <= 1:
         _init_worker()
-        for c in configs:
+        for c in tasks:
             results.append(run_config(H, c, tier))
     else:
         ctx = mp.get_context("fork")
-        with ctx.Pool(min(jobs, len(configs)), initializer=_init_worker) as pool:
-            for r in pool.imap_unordered(_work, [(hname, c, tier) for c in configs], chunksize=1):
+        with ctx.Pool(min(jobs, len(tasks)), initializer=_init_worker) as pool:
+            for r in pool.imap_unordered(_work, [(hname, c, tier) for c in tasks], chunksize=1):
                 results.append(r)
-    rc = finish(H, hname, tier, seed, configs, results, t0)
+    return dict(H=H, hname=hname, tier=tier, seed=seed, configs=configs, results=results, t0=t0, home=home)
+
+
+def main(hname, argv=None, extra=None):
+    argv = list(sys.argv[1:] if argv is None else argv)
+    if "--replay" in argv:
+        sys.exit(replay_main(hname, argv[argv.index("--replay") + 1]))
+    e = run_engine(hname, argv)
+    x = extra(e) if extra else {}
+    rc = finish(e["H"], hname, e["tier"], e["seed"], e["configs"], e["results"], e["t0"], **x)
     import shutil
-    shutil.rmtree(home, ignore_errors=True)
+    shutil.rmtree(e["home"], ignore_errors=True)
     sys.exit(rc)
 
 
-def finish(H, hname, tier, seed, configs, results, t0, extra_cov=None, extra_assumptions=None):
+def crosshair_extra(path, prop, timeout=120, reach_timeout=40):
+    """Run the CrossHair contracts of `path`; returns kwargs for finish()."""
+    from . import chrun
+    t0 = time.time()
+    res = chrun.run_contracts(path, timeout=timeout, reach_timeout=reach_timeout)
+    lines, nviol, problem = [], 0, False
+    known = [k for k in load_known() if k.get("property") == prop]
+    reported = []
+    for r in res:
+        key = f"{prop}:contract:{r['name']}"
+        if r["verdict"] == "counterexample":
+            ok, detail = chrun.replay_call(path, r["call"]) if r.get("call") else (False, "no call recovered")
+            rdir = os.path.join(ROOT, "replays", prop)
+            os.makedirs(rdir, exist_ok=True)
+            rp = os.path.join(rdir, f"contract_{r['name']}.json")
+            json.dump({"property": prop, "key": key, "contract_file": path, "call": r.get("call"), "detail": r.get("detail")},
+                      open(rp, "w"), indent=1)
+            if not ok:
+                problem = True
+                lines.append(f"ENGINE: CrossHair counterexample for {key} does not reproduce: {r.get('detail')} ({detail})")
+                continue
+            kf = next((k for k in known if fnmatch.fnmatchcase(key, k["key"])), None)
+            if kf:
+                lines.append(f"KNOWN-FINDING: property={prop} {key} -- {kf.get('what', '')}")
+                reported.append({"key": key, "known": True})
+            else:
+                nviol += 1
+                lines.append(f"VIOLATION property={prop} replay={rp}")
+                lines.append(f"  {key}: {r.get('detail')}; {detail}")
+                reported.append({"key": key, "known": False, "replay": rp})
+        elif r["verdict"] != "confirmed":
+            problem = True
+            lines.append(f"ENGINE: CrossHair contract {r['name']} inconclusive: {r.get('detail', '')[:200]}")
+        if not r["reach"]:
+            problem = True
+            lines.append(f"ENGINE: CrossHair contract {r['name']} is vacuous (reachability twin not violated): {r.get('reach_raw', '')[:200]}")
+    cov = {"crosshair_contracts": len(res),
+           "crosshair_confirmed_over_all_paths": sum(1 for r in res if r["verdict"] == "confirmed"),
+           "crosshair_counterexamples": sum(1 for r in res if r["verdict"] == "counterexample"),
+           "crosshair_inconclusive": sum(1 for r in res if r["verdict"] == "inconclusive"),
+           "crosshair_reachability_twins_violated": sum(1 for r in res if r["reach"]),
+           "crosshair_seconds": {r["name"]: r["seconds"] for r in res},
+           "crosshair_file": os.path.relpath(path, ROOT), "crosshair_wall_s": round(time.time() - t0, 1),
+           "crosshair_reported": reported}
+    return dict(extra_cov=cov, extra_lines=lines, extra_violations=nviol, extra_problem=problem,
+                extra_obligations=(len(res), sum(1 for r in res if r["verdict"] == "confirmed")))
+
+
+def finish(H, hname, tier, seed, configs, results, t0, extra_cov=None, extra_assumptions=None, extra_lines=None,
+           extra_violations=0, extra_problem=False, extra_obligations=(0, 0)):
     prop = H.PROP
     agg = {k: sum(r[k] for r in results) for k in
            ("paths", "aborted", "obligations", "discharged", "unknown", "shadow", "unknown_branches")}
@@ -279,10 +346,12 @@ def finish(H, hname, tier, seed, configs, results, t0, extra_cov=None, extra_ass
         for v in r["violations"]:
             viol.setdefault(v["key"], []).append(v)
     known = [k for k in load_known() if k.get("property") == prop]
-    lines = []
-    nviol = 0
-    engine_problem = False
+    lines = list(extra_lines or [])
+    nviol = int(extra_violations)
+    engine_problem = bool(extra_problem)
     replays = 0
+    agg["obligations"] += extra_obligations[0]
+    agg["discharged"] += extra_obligations[1]
     rdir = os.path.join(ROOT, "replays", prop)
     import shutil
     shutil.rmtree(rdir, ignore_errors=True)
